@@ -37,7 +37,10 @@ RULE = ('contents: float64, float32, int16, int32, int64 (and complex128/complex
         'integer contents vs the exact integer answer of the theorem; (c) freduce/fexpand: every length/ns of a box on every axis of '
         '1-3-D arrays with index-coded entries (exact, incl. IndexError); (d) fscale: every ns of a box x sampling intervals x '
         'one_sided, relative 1e-14; (e) fcn_cosine / lp / hp / bp: seeded bounds, values on and around the bounds, every axis; '
-        '(f) dft (real/complex, every axis) and dft2 (regular and jittered grids) vs the Float twin. '
+        '(f) dft (real/complex, every axis) and dft2 (regular and jittered grids) vs the Float twin; '
+        '(g) call sequences: every helper is called twice on the same argument objects and the second result is the one compared; '
+        'voltage.fk / agc / kfilt (the library\'s own users, which rescale what fscale returns in place) are run on small arrays and fscale is '
+        're-compared afterwards. '
         'A case is non-trivial when lengths are >= 2 (so that parity, cropping or mirroring matter); distinct by op + sizes + axis')
 ASSUMPTIONS = [
     "'same' is read as SciPy's convention (size of the first argument, centred on the full output, offset (nsw-1)//2); "
@@ -51,6 +54,8 @@ ASSUMPTIONS = [
     'conjugation pattern, table values) are compared exactly',
     'input dtypes: results for float32 / complex64 input are compared with 1e-5 x scale against the float64 model and the float64 call '
     '(NumPy >= 2 transforms single-precision data in single precision); integer input must agree with the float64 copy to 1e-9 x scale',
+    'statefulness: only the consequence is demanded (a helper called again, or after voltage.fk/agc/kfilt/lp/hp/bp/convolve ran, still returns the '
+    'model value of the original arguments); whether arguments are left untouched or results alias internal buffers is recorded as information only',
     'lengths >= 1 (empty axes raise in NumPy; modelled as errors and compared, but outside the property)',
     'cosine bounds b0 < b1 and sampling interval si > 0',
 ]
@@ -102,7 +107,7 @@ def errname(e):
 def fibres(a, axis):
     """Iterate over the 1-D fibres of `a` along `axis` (as copies), in C order of the other indices."""
     b = np.moveaxis(a, axis, -1)
-    return b.reshape(int(np.prod(b.shape[:-1])), b.shape[-1])
+    return np.array(b.reshape(int(np.prod(b.shape[:-1])), b.shape[-1]), copy=True)
 
 
 REAL_DTYPES = ('float64', 'float32', 'int16', 'int32', 'int64')
@@ -121,6 +126,57 @@ def rand_real(rng, shape, dtype, amp=None):
     amp = float(np.exp(rng.uniform(-3, 7))) if amp is None else amp
     return (rng.standard_normal(shape) * amp).astype(dt)
 
+# ---------------------------------------------------------------------------------------------
+# Call sequences: the model is a function of the ORIGINAL argument values, so what a user observes when calling a helper again
+# on the same argument objects (or after the library's own functions ran) must still be the model's answer.
+# Only this consequence is compared; whether arguments were touched or results alias internal buffers is recorded as a tag.
+# ---------------------------------------------------------------------------------------------
+_INFO = {'calls': 0, 'args_modified': 0, 'second_result_differs': 0}
+
+
+def _snap(a):
+    if isinstance(a, np.ndarray):
+        return ('nd', a.dtype.str, a.shape, a.tobytes())
+    if isinstance(a, (list, tuple)):
+        return ('seq', tuple(_snap(v) for v in a))
+    if isinstance(a, dict):
+        return ('dict', tuple((k, _snap(v)) for k, v in sorted(a.items())))
+    return ('obj', repr(a))
+
+
+def pure(desc, text, fn, *args, **kwargs):
+    """Call `fn` twice on the same argument objects and hand the SECOND result to the comparison with the model (which was
+    fed the original values).  Informational counters only; no disagreement is raised here."""
+    _INFO['calls'] += 1
+    before = _snap((args, kwargs))
+    r1 = fn(*args, **kwargs)
+    if _snap((args, kwargs)) != before:
+        _INFO['args_modified'] += 1
+    r2 = fn(*args, **kwargs)
+    if _snap(r1) != _snap(r2):
+        _INFO['second_result_differs'] += 1
+    return r2
+
+
+def alias_probe():
+    """Informational: which helpers return an array that aliases internal state (first result modified in place changes the next
+    identical call).  Uses argument values nothing else in the run uses, so a cache entry poisoned here is never read again."""
+    from ibldsp import fourier, utils
+    out = []
+    probes = [('fscale', lambda: fourier.fscale(997, 0.12345)), ('fscale one_sided', lambda: fourier.fscale(997, 0.12345, one_sided=True)),
+              ('fcn_cosine', lambda: utils.fcn_cosine([0.123, 0.456])(np.linspace(0, 1, 7)))]
+    for name, f in probes:
+        try:
+            a = f()
+            keep = np.array(a, copy=True)
+            if isinstance(a, np.ndarray) and a.flags.writeable and a.size:
+                a[...] = np.nan
+            if not np.array_equal(f(), keep, equal_nan=True):
+                out.append(name)
+        except Exception as e:
+            out.append(f'{name}: {type(e).__name__}')
+    return out
+
 
 def shapes_for(rng, n, ndim, axis):
     sh = [int(rng.integers(1, 4)) for _ in range(ndim)]
@@ -134,6 +190,8 @@ def shapes_for(rng, n, ndim, axis):
 def _impl_nsoptim(n):
     from ibldsp import fourier
     try:
+        if n % 16 == 3:
+            return f"ok {int(pure({'op': 'nsoptim', 'n': n}, f'fourier.ns_optim_fft({n})', fourier.ns_optim_fft, n))}"
         return f'ok {int(fourier.ns_optim_fft(n))}'
     except Exception as e:
         return errname(e)
@@ -183,7 +241,11 @@ def _observe_operator(nsx, nsw, mode):
     from ibldsp import fourier
     w = np.arange(1, nsw + 1, dtype=float)
     try:
-        out = fourier.convolve(np.eye(nsx), w, mode=mode)
+        if (nsx * 7 + nsw) % 8 == 0 and nsx * nsw <= 20000:
+            out = pure({'op': 'convolve', 'nsx': nsx, 'nsw': nsw, 'mode': mode}, f"fourier.convolve(np.eye({nsx}), np.arange(1, {nsw + 1}.), mode='{mode}')",
+                       fourier.convolve, np.eye(nsx), w, mode=mode)
+        else:
+            out = fourier.convolve(np.eye(nsx), w, mode=mode)
     except Exception as e:
         return errname(e)
     if out is None:
@@ -287,10 +349,11 @@ def corr_conv_values(ctx):
         jobs.append((x, w, mode, kind))
     lines, meta = [], []
     for x, w, mode, kind in jobs:
-        X = x.reshape(-1, x.shape[-1])
-        W = np.broadcast_to(w, x.shape[:-1] + (w.shape[-1],)).reshape(-1, w.shape[-1])
+        X = x.reshape(-1, x.shape[-1]).copy()
+        W = np.broadcast_to(w, x.shape[:-1] + (w.shape[-1],)).reshape(-1, w.shape[-1]).copy()
         try:
-            out = fourier.convolve(x, w, mode=mode)
+            out = pure({'op': 'convolve-values', 'x_shape': list(x.shape), 'w_shape': list(w.shape), 'mode': mode, 'contents': kind, 'row': 0},
+                       f"fourier.convolve(x{list(x.shape)}:{x.dtype}, w{list(w.shape)}, mode='{mode}')", fourier.convolve, x, w, mode=mode)
             O = out.reshape(-1, out.shape[-1])
             err = None
         except Exception as e:
@@ -371,7 +434,10 @@ def corr_reduce_expand(ctx):
                 dt = CODED_DTYPES[(n + 2 * ndim + axis) % len(CODED_DTYPES)]
                 x = _coded(sh, axis, dt)
                 try:
-                    r = _decode_coded(fourier.freduce(x, axis=(axis - ndim if n % 4 == 1 else axis)) if (axis != ndim - 1 or n % 2) else fourier.freduce(x), axis, dt)
+                    d_ = {'op': 'freduce', 'n': n, 'ndim': ndim, 'axis': axis, 'dtype': dt}
+                    t_ = f'fourier.freduce(x{list(sh)}:{dt}, axis={axis})'
+                    r = _decode_coded(pure(d_, t_, fourier.freduce, x, axis=(axis - ndim if n % 4 == 1 else axis)) if (axis != ndim - 1 or n % 2)
+                                      else pure(d_, t_, fourier.freduce, x), axis, dt)
                 except Exception as e:
                     r = errname(e)
                 lines.append(f'freduce {n}'); impl.append(r)
@@ -388,7 +454,10 @@ def corr_reduce_expand(ctx):
             dt = CODED_DTYPES[(ns + m) % len(CODED_DTYPES)] if m != ns // 2 + 1 else CODED_DTYPES[ns % 2]
             x = _coded(sh, axis, dt)
             try:
-                r = _decode_coded(fourier.fexpand(x, ns, axis=(axis - ndim if ns % 4 == 1 else axis)) if (axis != ndim - 1 or m % 2) else fourier.fexpand(x, ns), axis, dt)
+                d_ = {'op': 'fexpand', 'ns': ns, 'm': m, 'ndim': ndim, 'axis': axis, 'dtype': dt}
+                t_ = f'fourier.fexpand(x{list(sh)}:{dt}, {ns}, axis={axis})'
+                r = _decode_coded(pure(d_, t_, fourier.fexpand, x, ns, axis=(axis - ndim if ns % 4 == 1 else axis)) if (axis != ndim - 1 or m % 2)
+                                  else pure(d_, t_, fourier.fexpand, x, ns), axis, dt)
             except Exception as e:
                 r = errname(e)
             lines.append(f'fexpand {ns} {m}'); impl.append(r)
@@ -415,7 +484,9 @@ def corr_fscale(ctx):
               for _ in range(ctx.n(40, 300))]
     cases += [(n, 1, False) for n in (1, 2, 3, 4, 5)]      # integer si as in the defaults
     for n, si, one in cases:
-        r = fourier.fscale(n, si, one_sided=one) if one else fourier.fscale(n, si)
+        d_ = {'op': 'fscale', 'ns': n, 'si': si, 'one_sided': one}
+        r = (pure(d_, f'fourier.fscale({n}, {si!r}, one_sided=True)', fourier.fscale, n, si, one_sided=True) if one
+             else pure(d_, f'fourier.fscale({n}, {si!r})', fourier.fscale, n, si))
         lines.append(f'fscale {n} {bits([si])} {int(one)}'); impl.append(np.asarray(r, dtype=float))
         meta.append(({'op': 'fscale', 'ns': n, 'si': si, 'one_sided': one}, n >= 3,
                      ('fscale', 'fscale:odd' if n % 2 else 'fscale:even', 'fscale:one_sided' if one else 'fscale:two_sided')))
@@ -437,7 +508,7 @@ def _bounds(rng, fs=1.0):
 
 
 def corr_cosine(ctx):
-    from ibldsp import utils
+    from ibldsp import utils, fourier
     rng = ctx.rng
     lines, impl, meta = [], [], []
     for t in range(ctx.n(150, 1500)):
@@ -446,7 +517,12 @@ def corr_cosine(ctx):
             b0, b1 = float(int(b0 * 10)), float(int(b0 * 10) + 1 + int(rng.integers(0, 5)))
         xs = np.concatenate([[b0, b1, (b0 + b1) / 2, b0 - 1, b1 + 1, np.nextafter(b0, -np.inf), np.nextafter(b1, np.inf), 0.0],
                              rng.uniform(b0 - (b1 - b0), b1 + (b1 - b0), 12)])
-        y = utils.fcn_cosine([b0, b1])(xs.copy())
+        y = pure({'op': 'fcn_cosine', 'b0': b0, 'b1': b1}, f'utils.fcn_cosine([{b0!r}, {b1!r}])(x[{len(xs)}])',
+                 lambda b, v: utils.fcn_cosine(b)(v), [b0, b1], xs)
+        if t % 2:
+            fv = pure({'op': 'fcn_cosine', 'b0': b0, 'b1': b1}, f'fourier._freq_vector(x[{len(xs)}], [{b0!r}, {b1!r}], typ="lp")',
+                      fourier._freq_vector, xs, [b0, b1], typ='lp')
+            y = 1 - fv        # observed through _freq_vector(…, "lp") = 1 - taper
         lines.append(f'fcncos {bits([b0])} {bits([b1])} {bits(xs)}'); impl.append(y); meta.append((b0, b1))
     model = ctx.lean(lines)
     for (b0, b1), y, m in zip(meta, impl, model):
@@ -477,12 +553,14 @@ def corr_filters(ctx):
     for ts, si, typ, b, axis, dflt, neg in jobs:
         f = getattr(fourier, typ)
         ax_arg = axis - ts.ndim if neg else axis
+        F = fibres(ts, axis)
+        d_ = {'op': typ, 'shape': list(ts.shape), 'axis': ax_arg, 'si': si, 'b': b, 'fibre': 0, 'dtype': str(ts.dtype)}
+        t_ = f'fourier.{typ}(ts{list(ts.shape)}:{ts.dtype}, {si!r}, {b!r}, axis={ax_arg})'
         try:
-            out = f(ts, si, b) if dflt else f(ts, si, b, axis=ax_arg)
+            out = pure(d_, t_, f, ts, si, b) if dflt else pure(d_, t_, f, ts, si, b, axis=ax_arg)
             err = None
         except Exception as e:
             out, err = None, errname(e)
-        F = fibres(ts, axis)
         O = None if out is None else fibres(out, axis)
         for i in range(F.shape[0]):
             lines.append(f'{typ} {bits([si])} ' + ' '.join(bits([v]) for v in b) + ' ' + bits(F[i].astype(np.float64)))
@@ -520,12 +598,15 @@ def corr_dft(ctx):
             x = (rng.standard_normal(sh) + 1j * rng.standard_normal(sh)).astype(('complex128', 'complex64')[(t // 2) % 2])
         else:
             x = rand_real(rng, sh, REAL_DTYPES[(t // 2) % len(REAL_DTYPES)])
+        F = fibres(x, axis)
+        d_ = {'op': 'dft', 'shape': list(sh), 'axis': axis, 'complex': cplx, 'fibre': 0, 'dtype': str(x.dtype)}
+        t_ = f'fourier.dft(x{list(sh)}:{x.dtype}, axis={axis})'
         try:
-            out = fourier.dft(x, axis=(axis - ndim if t % 5 == 2 else axis)) if (axis != ndim - 1 or t % 3) else fourier.dft(x)
+            out = (pure(d_, t_, fourier.dft, x, axis=(axis - ndim if t % 5 == 2 else axis)) if (axis != ndim - 1 or t % 3)
+                   else pure(d_, t_, fourier.dft, x))
             err = None
         except Exception as e:
             out, err = None, errname(e)
-        F = fibres(x, axis)
         O = None if out is None else fibres(out, axis)
         for i in range(F.shape[0]):
             lines.append(f'dft {int(cplx)} {cbits(F[i].astype(np.complex128))}')
@@ -544,15 +625,17 @@ def corr_dft(ctx):
             x = rng.standard_normal((n0 * n1, nt)) + 1j * rng.standard_normal((n0 * n1, nt))
         else:
             x = rand_real(rng, (n0 * n1, nt), REAL_DTYPES[(t // 4) % len(REAL_DTYPES)])
+        x0 = x.copy()
         try:
-            out = fourier.dft2(x, r, c, nk, nl)
+            out = pure({'op': 'dft2', 'grid': [n0, n1], 'nk': nk, 'nl': nl, 'irregular': t % 3 == 2, 'column': 0, 'dtype': str(x.dtype)},
+                       f'fourier.dft2(x{list(x.shape)}:{x.dtype}, r, c, {nk}, {nl})', fourier.dft2, x, r, c, nk, nl)
             err = None
         except Exception as e:
             out, err = None, errname(e)
         for i in range(nt):
-            lines.append(f'dft2 {nk} {nl} {bits(r)} {bits(c)} {cbits(x[:, i].astype(np.complex128))}')
+            lines.append(f'dft2 {nk} {nl} {bits(r)} {bits(c)} {cbits(x0[:, i].astype(np.complex128))}')
             meta.append(('dft2', {'op': 'dft2', 'grid': [n0, n1], 'nk': nk, 'nl': nl, 'irregular': t % 3 == 2, 'column': i,
-                                  'dtype': str(x.dtype)}, x[:, i].astype(np.complex128),
+                                  'dtype': str(x.dtype)}, x0[:, i].astype(np.complex128),
                          None if out is None else out[:, :, i].ravel(), err,
                          ('dft2', 'dft2:irregular' if t % 3 == 2 else 'dft2:regular', 'dft2:' + str(x.dtype)), str(x.dtype)))
     model = ctx.lean(lines)
@@ -566,8 +649,56 @@ def corr_dft(ctx):
         ctx.compare(op, desc, 'ok' if good else f'{np.asarray(oi)[:4].tolist()} len={len(oi)}', 'ok' if good else f'{mv[:4].tolist()} len={len(mv)}',
                     nontrivial=len(xi) >= 2, tags=tags)
 
+# ---------------------------------------------------------------------------------------------
+# (g) state: the library's own callers of the helpers (voltage.fk / kfilt / agc) interleaved with the helpers
+# ---------------------------------------------------------------------------------------------
+STATE_CONFIGS = [(4, 8, 0, 0, False), (5, 9, 2, 0.02, False), (3, 5, 1, 0, False), (14, 24, 2, 0.02, True), (16, 33, 0, 0, True),
+                 (7, 16, 3, 0.02, False), (2, 2, 0, 0, False), (9, 27, 1, 0, False)]
+
+
+def _run_library_users(nx, nt, pad, lagc, with_kfilt, seed=0):
+    """voltage.fk (and kfilt, agc) on a small array: they use fscale / fcn_cosine / _freq_vector / convolve and work in place on what
+    they get back.  Returns (call text, sampling interval, spatial interval, problem or None)."""
+    import warnings
+    from ibldsp import voltage
+    rng = np.random.default_rng([seed, nx, nt, pad])
+    x = rng.standard_normal((nx, nt))
+    si, dx = 0.002, float(1 + (nx % 3))
+    kf = {'bounds': [0.05, 0.1], 'btype': 'highpass'} if with_kfilt else None
+    text = f'voltage.fk(x[{nx}, {nt}], si={si}, dx={dx}, vbounds=[200, 400], ntr_pad={pad}, lagc={lagc}, kfilt={kf})'
+    with warnings.catch_warnings():
+        warnings.simplefilter('ignore')
+        # copies: voltage.agc documents that it works in place on its input (C05's business, not a C18 helper)
+        voltage.fk(x.copy(), si=si, dx=dx, vbounds=[200, 400], ntr_pad=pad, lagc=lagc, kfilt=kf)
+        voltage.agc(x.copy(), wl=0.02, si=si)
+        if nx + 2 * pad > 12:
+            voltage.kfilt(x.copy(), ntr_pad=pad, ntr_tap=pad, lagc=None, butter_kwargs={'N': 3, 'Wn': 0.1, 'btype': 'highpass'})
+            text += '; voltage.kfilt(x, …)'
+    return text, si, dx, None
+
+
+def corr_state(ctx):
+    from ibldsp import fourier
+    lines, impl, meta = [], [], []
+    for (nx, nt, pad, lagc, kf) in STATE_CONFIGS[:ctx.n(6, 8)]:
+        text, si, dx, prob = _run_library_users(nx, nt, pad, lagc, kf, ctx.seed)
+        for n, s_ in ((nx + 2 * pad, dx), (nt, si)):
+            for one in (False, True):
+                r = fourier.fscale(n, s_, one_sided=True) if one else fourier.fscale(n, s_)    # the call forms the library itself uses
+                lines.append(f'fscale {n} {bits([s_])} {int(one)}'); impl.append(np.asarray(r, dtype=float))
+                meta.append({'op': 'state', 'nx': nx, 'nt': nt, 'ntr_pad': pad, 'lagc': lagc, 'kfilt': kf, 'then': f'fscale({n}, {s_}, one_sided={one})'})
+    model = ctx.lean(lines)
+    for desc, a, b in zip(meta, impl, model):
+        mv = unbits(b.split()[1]) if b.startswith('ok') and len(b.split()) > 1 else np.zeros(0)
+        good = mv.shape == a.shape and bool(np.all(np.abs(mv - a) <= 1e-14 * np.abs(mv)))
+        ctx.compare('state', desc, 'ok' if good else f'{a[:6].tolist()} len={len(a)}', 'ok' if good else f'{mv[:6].tolist()} len={len(mv)}',
+                    tags=('state:fscale_after_fk',))
+
 
 def correspondence(ctx):
+    for k in _INFO:
+        _INFO[k] = 0
+    corr_state(ctx)
     corr_nsoptim(ctx)
     corr_conv_operator(ctx)
     corr_conv_values(ctx)
@@ -576,6 +707,11 @@ def correspondence(ctx):
     corr_cosine(ctx)
     corr_filters(ctx)
     corr_dft(ctx)
+    corr_state(ctx)
+    ctx.dist['sequence:helper called twice on the same argument objects (second result compared)'] += _INFO['calls']
+    ctx.dist['info:call modified an argument in place'] += _INFO['args_modified']
+    ctx.dist['info:second result differs from first'] += _INFO['second_result_differs']
+    ctx.note(f'informational (not demanded): helpers whose returned array aliases internal state: {alias_probe() or "none"}')
     ctx.exhaustive = False
 
 
@@ -782,8 +918,34 @@ def oracle_dft2(n0, n1, seed=0):
     return None
 
 
+def oracle_sequence(nx, nt, pad, lagc, with_kfilt, seed=0):
+    """The helpers after the library's own users of them ran (voltage.fk rescales the wavenumber scale it gets from fscale in place,
+    agc / kfilt / lp / hp / bp / convolve call the same helpers): the property must still hold for the helpers' next results."""
+    from ibldsp import fourier
+    text, si, dx, _ = _run_library_users(nx, nt, pad, lagc, with_kfilt, seed)
+    rng = np.random.default_rng([seed, nx, nt, 7])
+    ts = rng.standard_normal((nx, nt))
+    fourier.lp(ts, si, [50, 100]); fourier.hp(ts, si, [50, 100], axis=0); fourier.bp(ts, si, [20, 40, 100, 200])
+    fourier.convolve(ts, np.hanning(5), mode='same')
+    text += '; fourier.lp / hp / bp / convolve on an array of the same shape'
+    checks = [(f'fourier.fscale({nx + 2 * pad}, {dx})', lambda: oracle_fscale(nx + 2 * pad, dx)),
+              (f'fourier.fscale({nt}, {si})', lambda: oracle_fscale(nt, si)),
+              ('fcn_cosine', lambda: oracle_cosine(seed)),
+              ('filters', lambda: oracle_filters(min(nt, 12), seed)),
+              ('convolve', lambda: oracle_conv(min(nt, 9), 4, seed)),
+              ('freduce/fexpand', lambda: oracle_reduce_expand(nt, seed)),
+              ('dft', lambda: oracle_dft(min(nt, 9), seed))]
+    for what, f in checks:
+        r = f()
+        if r:
+            return f'call sequence: {text}; then {what}: {r}'
+    return None
+
+
 def run_oracle(inp):
     k = inp['kind']
+    if k == 'sequence':
+        return oracle_sequence(inp['nx'], inp['nt'], inp['ntr_pad'], inp['lagc'], inp['kfilt'], inp.get('seed', 0))
     if k == 'nsoptim':
         return oracle_nsoptim(inp['n'])
     if k == 'convolve':
@@ -832,6 +994,8 @@ def _candidates(ctx):
             first.append({'kind': 'dft', 'n': c['shape'][c['axis']]})
         elif op == 'dft2':
             first.append({'kind': 'dft2', 'n0': c['grid'][0], 'n1': c['grid'][1]})
+        elif op == 'state':
+            first.append({'kind': 'sequence', 'nx': c['nx'], 'nt': c['nt'], 'ntr_pad': c['ntr_pad'], 'lagc': c['lagc'], 'kfilt': c['kfilt']})
     groups = [
         [{'kind': 'nsoptim', 'n': n} for n in itertools.chain(range(1, 2000), (v + d for a in range(26) for b in range(16)
                                                                             for v in [2 ** a * 3 ** b] for d in (-1, 0, 1)))],
@@ -842,6 +1006,8 @@ def _candidates(ctx):
         [{'kind': 'filters', 'n': n} for n in range(1, 40)],
         [{'kind': 'dft', 'n': n} for n in range(1, 24)],
         [{'kind': 'dft2', 'n0': a, 'n1': b} for a in range(1, 6) for b in range(1, 6)],
+        [{'kind': 'sequence', 'nx': c[0], 'nt': c[1], 'ntr_pad': c[2], 'lagc': c[3], 'kfilt': c[4]}
+         for c in sorted(STATE_CONFIGS, key=lambda c: c[0] * c[1])],
     ]
     return first, groups
 
